@@ -32,9 +32,9 @@ def instances(tier):
         # Clustal / MSF / auto-detected readers did not finish at 3x3 within 1500 s / 8 GB (cadical): thorough tier only
         tup = [(1, 3, 2, 0), (1, 4, 2, 0b0101)]
     else:
-        tup = [(1, l, w, sm) for l in (2, 3, 4, 5) for w in (1, 2, 3, 4) for sm in (0, 0b0101)] + [(3, l, w, sm) for l in (3, 4, 5) for w in (2, 3, 4) for sm in (0, 0b0110)] + [(0, 3, 2, 0), (0, 4, 3, 0)]
+        tup = [(1, 2, 2, 0), (1, 3, 2, 0), (1, 4, 2, 0b0101), (1, 3, 3, 0), (1, 5, 2, 0b01010), (1, 4, 3, 0), (3, 3, 3, 0), (2, 3, 3, 0), (0, 3, 2, 0)]
     for rd, lines, ll, sm in tup:
-        out.append(read_inst(rd, lines, ll, sm, timeout=1500 if tier == "quick" else 5400, mem_gb=8 if tier == "quick" else 14))
+        out.append(read_inst(rd, lines, ll, sm, timeout=1500 if tier == "quick" else 3600, mem_gb=8 if tier == "quick" else 14))
     out += alpha_instances(tier, ob="O2", prefix="alpha")
     # O3 array API and O4 object life cycles (shared with C16), O6 command-line glue (shared with C09)
     import dataclasses
